@@ -125,7 +125,7 @@ impl Property for C12 {
     const ID: &'static str = "C12";
 
     fn rule() -> String {
-        "stateful: proptest-generated histories (0..12 ops) of set_location{listed pack k | unknown uuid, location in {empty, ASCII 0..213 bytes, multi-byte UTF-8 of exactly n<=213 bytes (incl. 211, 212, 213), path with .., the original}} interleaved with reopen, over manifests standalone (NoConcat) or inside a container file at small and large offsets (OneFile, TwoFiles; contents of generated size in front of it), 2-4 packs listed. The interpreter applies each op with tools::set_location and to a model map uuid->location. Oracle after every op: return value Ok(Some((kind, previous location))) / Ok(None) with a byte-identical file for an unknown uuid; the file differs from its predecessor only inside bytes 38..256 of that pack-info block (offset from the independent decoder); ManifestPack::new succeeds and its pack infos equal the model (other fields unchanged); ManifestPack::check, ContainerPack::check and the independent decoder's own blake3/CRC verification succeed; when the directory pack is reachable Container::new succeeds, check() is true, entries equal the model and contents of reachable packs equal the model. Non-trivial = >=2 rewrites one of which targets a pack rewritten before, or a multi-byte location at the length limit, or a manifest at offset > 0; distinct by history shape. One case in five is assembled with the low-level creators (0/30/70 KB of free data per pack, the directory pack declared after 0..3 content packs); fixed cases: manifests of 270 and 300 packs (pack infos across the 64 KiB buffer the check is computed through), the location of every pack rewritten in turn. 301 further fixed cases move the pack-info array one byte at a time (one pack carrying 0..=300 bytes of free data). One container is kept open from before the first rewrite; after every rewrite a manifest parsed through it must read the locations written and verify. Locations also include strings holding U+0000 (at the end, alone, in the middle, twice, at the start): the byte the field is padded with.".into()
+        "stateful: proptest-generated histories (0..12 ops) of set_location{listed pack k | unknown uuid, location in {empty, ASCII 0..213 bytes, multi-byte UTF-8 of exactly n<=213 bytes (incl. 211, 212, 213), path with .., the original}} interleaved with reopen, over manifests standalone (NoConcat) or inside a container file at small and large offsets (OneFile, TwoFiles; contents of generated size in front of it), 2-4 packs listed. The interpreter applies each op with tools::set_location and to a model map uuid->location. Oracle after every op: return value Ok(Some((kind, previous location))) / Ok(None) with a byte-identical file for an unknown uuid; the file differs from its predecessor only inside bytes 38..256 of that pack-info block (offset from the independent decoder); ManifestPack::new succeeds and its pack infos equal the model (other fields unchanged); ManifestPack::check, ContainerPack::check and the independent decoder's own blake3/CRC verification succeed; when the directory pack is reachable Container::new succeeds, check() is true, entries equal the model and contents of reachable packs equal the model. Non-trivial = >=2 rewrites one of which targets a pack rewritten before, or a multi-byte location at the length limit, or a manifest at offset > 0; distinct by history shape. One case in five is assembled with the low-level creators (0/30/70 KB of free data per pack, the directory pack declared after 0..3 content packs); fixed cases: manifests of 270 and 300 packs (pack infos across the 64 KiB buffer the check is computed through), the location of every pack rewritten in turn. 301 further fixed cases move the pack-info array one byte at a time (one pack carrying 0..=300 bytes of free data). One container is kept open from before the first rewrite; after every rewrite a manifest parsed through it must read the locations written and verify. Locations also include strings holding U+0000 (at the end, alone, in the middle, twice, at the start): the byte the field is padded with. The same byte-by-byte sweep is made for manifests of 260 packs, whose pack-info array crosses the 64 KiB mark of the stream the check is computed through (86 cases, all 256 in the thorough tier).".into()
     }
 
     fn cases(tier: Tier) -> u32 {
@@ -168,6 +168,19 @@ impl Property for C12 {
                 many_packs: None,
                 free_first_only: true,
             });
+        }
+        // the same sweep for a pack-info array that crosses the 64 KiB mark of the stream the check
+        // is computed through (260 packs): the mark falls on every byte of a pack info in turn.
+        // The packs around the mark (and the first and last) are relocated.
+        for n in (0..256u32).step_by(if _tier == Tier::Thorough { 1 } else { 3 }) {
+            let total = 261u32;
+            let at = |k: u32| ((k * 65536 + total - 1) / total) as u16;
+            let history = [0u32, 250, 251, 252, 253, 254, 255, 256, 257, 260]
+                .iter()
+                .enumerate()
+                .map(|(i, k)| Op::Set { pack: at(*k), unknown: false, loc: if i % 2 == 0 { Loc::Ascii((20 + n % 190) as u8) } else { Loc::Utf8((9 + n % 200) as u8) } })
+                .collect();
+            v.push(Case { packaging: Packaging::OneFile, comp: Comp::None, contents: vec![], extra: vec![], history, lowlevel_free_data: Some(n), dir_slot: (n % 2) as u8, many_packs: Some(260), free_first_only: true });
         }
         v
     }
